@@ -62,6 +62,9 @@ def simple_forms():
         ('iounit', ('iounit',)),
         ('comment', ('comment', 'a comment with do i = 1, n and end if in it')),
         ('k=3', ASG(k, I(3))),
+        ('p=ia(size(ia))', ASG(p, E('ia', FN('size', V('ia'))))),
+        ('x=real(ubound(ra,1))*ra(1)', ASG(x, B('*', FN('real', FN('ubound', V('ra'), I(1))), E('ra', I(1))))),
+        ('q=ib(lbound(ib,1))+size(ib)', ASG(q, B('+', E('ib', FN('lbound', V('ib'), I(1))), FN('size', V('ib'))))),
     ]
 
 
@@ -139,9 +142,21 @@ def compound_forms(body_i, body_n, body2_i=None):
                                      [ASG(E('ia', i), p), ASG(E('ib', B('-', i, I(1))), E('ia', B('-', i, I(1))))] + body_i, None, None)]),
         ('do-carried-scalar', [('do', 'i', I(1), n, None, [ASG(E('ia', i), q), ASG(q, B('+', E('ia', i), i))] + body_i, None, None)]),
         ('if-partial-write-then-read', [('if', [(C('>', n, I(1)), [ASG(E('ia', I(1)), I(0)), ASG(p, E('ia', n))] + body_n)], None)]),
+        ('select-write-then-read-later-case', [('select', p, [([('val', 2)], [ASG(V('y'), R('1.5'))] + body_n),
+                                                              ([('val', 3), ('rng', None, -1)], [ASG(V('x'), B('+', V('y'), R('1.0')))])],
+                                               [ASG(V('x'), R('0.5'))])]),
+        ('if-write-else-read', [('if', [(C('>', p, q), [ASG(V('y'), R('2.0'))] + body_n)], [ASG(V('x'), B('*', V('y'), R('0.5')))])]),
+        ('if-write-elseif-read', [('if', [(C('>', p, I(2)), [ASG(k, I(1))]), (C('<', p, I(0)), [ASG(q, B('+', q, x_as_int()))])],
+                                   [ASG(q, I(7))])]),
+        ('where-write-elsewhere-read', [('where', [(C('>', V('ib'), I(2)), [('whole', 'ia', I(0))])], [('whole', 'ib', V('ia'))])]),
+        ('do-bound-size-read-elem', [('do', 'i', I(1), FN('size', V('ia')), None, [ASG(q, B('+', q, E('ia', i)))] + body_i, None, None)]),
         ('assoc-alias-write-read', [('assoc', [('a', p)], [ASG(V('a'), B('+', V('a'), I(1))), ASG(q, B('*', p, I(2)))] + body_n)]),
     ]
     return forms
+
+
+def x_as_int():
+    return ('fn', 'fsq', [('v', 'p')])
 
 
 def default_bodies():
